@@ -105,8 +105,15 @@ def rule_chart_wraps(ctx: Ctx, out: Collector) -> None:
         raises = [n for n in ast.walk(ast.Module(body=hn.body, type_ignores=[])) if isinstance(n, ast.Raise)]
         ok = bool(rets) and not raises
         detail = ''
+        from ..engine import follow_values
+        terms = []
         for r in rets:
-            t = sym.term(ctx.p, _returned_expr(hn.body, r), g.root_inst) if r.value is not None else None
+            if r.value is None:
+                terms.append(None)
+                continue
+            for e, i in follow_values(ctx.p, _returned_expr(hn.body, r), g.root_inst):
+                terms.append(sym.term(ctx.p, e, i))
+        for t in terms:
             if not (isinstance(t, tuple) and t[0] == 'new' and t[1].endswith('PipelineResult')):
                 ok = False
                 detail = f'returns {sym.show(t) if t else None}'
@@ -129,8 +136,12 @@ def rule_chart_wraps(ctx: Ctx, out: Collector) -> None:
     for n in ast.walk(unit.node):
         if isinstance(n, ast.Return) and n.value is not None and not any(n in ast.walk(h.node) for h in hs):
             succ.append(n)
+    from ..engine import follow_values
+    succ_terms = []
     for r in succ:
-        t = sym.term(ctx.p, _returned_expr(_enclosing_block(unit.node, r), r), g.root_inst)
+        for e, i in follow_values(ctx.p, _returned_expr(_enclosing_block(unit.node, r), r), g.root_inst):
+            succ_terms.append((r, sym.term(ctx.p, e, i)))
+    for r, t in succ_terms:
         cons = cons_base + '::success result'
         if isinstance(t, tuple) and t[0] == 'new' and t[1].endswith('PipelineResult'):
             kws = dict(t[3])
